@@ -88,6 +88,19 @@ Theorem C03_min_packet :
 Proof. exact min_packet_16. Qed.
 Print Assumptions C03_min_packet.
 
+(* the generated tables say what the RFCs say about each algorithm NAME: for every suite whose names have a
+   reference entry (rfc_macs / rfc_ciphers in Model/C03.v, written from RFC 4253 6.3/6.4, 4344, 5647, 6668 and
+   OpenSSH PROTOCOL), the tag written has the RFC length, the block size is the RFC one and the length field
+   is excluded exactly for AEAD / -etm names.  C03_example_referenced: every current entry has a reference *)
+Theorem C03_rfc_tables :
+  forall c m bs aead sz etm,
+    In c c03_cipher_table -> In m c03_mac_table ->
+    assoc (ci_name c) rfc_ciphers = Some (bs, aead) -> assoc (ma_name m) rfc_macs = Some (sz, etm) ->
+    tag_len (negotiated c m) (ma_digest m) 16 = (if aead then 16 else sz) /\
+    ci_bs c = bs /\ align_offset (negotiated c m) = (if aead || etm then 4 else 0).
+Proof. exact tag_len_rfc. Qed.
+Print Assumptions C03_rfc_tables.
+
 (* what holds instead when the length field is excluded (EtM / AEAD): 4 + at least one block.  With an
    8-byte block cipher (3des-cbc + an -etm MAC) a packet can therefore be 12 bytes, below the 16 of
    RFC 4253 section 6 -- the same framing OpenSSH uses; see C03_example_short_etm *)
@@ -181,3 +194,8 @@ Example C03_example_compressed :
     send_message toy_engines (Some (fun x => 120 :: x ++ x)) (mk_mode true false false false 16 12) 3
                  [5; 1; 2] = Ok wire /\ length wire = (16 + 12)%nat.
 Proof. eexists. split; [vm_compute; reflexivity|]. reflexivity. Qed.
+
+(* how many entries of the generated tables have a reference definition (all of them today) *)
+Example C03_example_referenced :
+  referenced (map ma_name c03_mac_table) rfc_macs >= 1 /\ referenced (map ci_name c03_cipher_table) rfc_ciphers >= 1.
+Proof. vm_compute. split; discriminate. Qed.
